@@ -2,12 +2,16 @@
 //!
 //! Add-only: nothing here changes the behaviour of the library; it only makes
 //! crate-private pure components reachable from the out-of-tree verification
-//! harness so that they can be run side by side with their formal model.
+//! harness so that they can be run side by side with their formal model. The
+//! wrappers deliberately expose plain data (byte vectors, strings) and none of
+//! the crate's private types.
 
 /// HPACK and Huffman entry points.
 pub mod hpack {
-    pub use crate::hpack::{BytesStr, Decoder, DecoderError, Encoder, Header, NeedMore};
-    use bytes::BytesMut;
+    use crate::hpack::{Decoder, Encoder, Header};
+    use bytes::{Bytes, BytesMut};
+    use std::io::Cursor;
+    use std::ops::ControlFlow;
 
     /// `hpack::huffman::encode`
     pub fn huffman_encode(src: &[u8]) -> Vec<u8> {
@@ -17,8 +21,97 @@ pub mod hpack {
     }
 
     /// `hpack::huffman::decode`
-    pub fn huffman_decode(src: &[u8]) -> Result<Vec<u8>, DecoderError> {
+    pub fn huffman_decode(src: &[u8]) -> Result<Vec<u8>, String> {
         let mut buf = BytesMut::new();
-        crate::hpack::huffman::decode(src, &mut buf).map(|b| b.to_vec())
+        crate::hpack::huffman::decode(src, &mut buf)
+            .map(|b| b.to_vec())
+            .map_err(|e| format!("{:?}", e))
+    }
+
+    /// A `hpack::Decoder` plus the undecoded tail the framing layer carries
+    /// from one header-block fragment to the next.
+    pub struct Dec {
+        inner: Decoder,
+        buf: BytesMut,
+    }
+
+    impl Dec {
+        pub fn new(size: usize) -> Dec {
+            Dec {
+                inner: Decoder::new(size),
+                buf: BytesMut::new(),
+            }
+        }
+
+        pub fn queue_size_update(&mut self, size: usize) {
+            self.inner.queue_size_update(size);
+        }
+
+        /// Starts a new header block: whatever was left undecoded is dropped,
+        /// as happens when a new HEADERS / PUSH_PROMISE payload is loaded.
+        pub fn new_block(&mut self) {
+            self.buf = BytesMut::new();
+        }
+
+        /// Feeds one fragment the way `framed_read` does: the fragment is
+        /// appended to the carried-over tail and `Decoder::decode` is called
+        /// on the result. Returns the fields emitted by this call, the result
+        /// and the length of the tail left for the next fragment.
+        pub fn feed(&mut self, chunk: &[u8]) -> (Vec<(Vec<u8>, Vec<u8>)>, Result<(), String>, usize) {
+            self.buf.extend_from_slice(chunk);
+            let mut out = Vec::new();
+            let res = {
+                let mut cursor = Cursor::new(&mut self.buf);
+                self.inner.decode(&mut cursor, |h| {
+                    out.push((h.name().as_slice().to_vec(), h.value_slice().to_vec()));
+                    ControlFlow::Continue(())
+                })
+            };
+            (out, res.map_err(|e| format!("{:?}", e)), self.buf.len())
+        }
+
+        /// `{:?}` of the decoder (table entries, size, limits).
+        pub fn state(&self) -> String {
+            format!("{:?}", self.inner)
+        }
+    }
+
+    /// A `hpack::Encoder` driven with raw name/value pairs.
+    pub struct Enc {
+        inner: Encoder,
+    }
+
+    impl Enc {
+        pub fn new(max_size: usize, capacity: usize) -> Enc {
+            Enc {
+                inner: Encoder::new(max_size, capacity),
+            }
+        }
+
+        pub fn update_max_size(&mut self, val: usize) {
+            self.inner.update_max_size(val);
+        }
+
+        /// Encodes one header list (name, value, sensitive). Fields are built
+        /// with `Header::new`, i.e. exactly what the decoder would accept.
+        pub fn encode(&mut self, fields: &[(Vec<u8>, Vec<u8>, bool)]) -> Result<Vec<u8>, String> {
+            let mut hs = Vec::new();
+            for (n, v, sensitive) in fields {
+                let mut h = Header::new(Bytes::copy_from_slice(n), Bytes::copy_from_slice(v))
+                    .map_err(|e| format!("{:?}", e))?;
+                if let Header::Field { ref mut value, .. } = h {
+                    value.set_sensitive(*sensitive);
+                }
+                hs.push(h.into());
+            }
+            let mut dst = BytesMut::new();
+            self.inner.encode(hs, &mut dst);
+            Ok(dst.to_vec())
+        }
+
+        /// `{:?}` of the encoder (table, pending size update).
+        pub fn state(&self) -> String {
+            format!("{:?}", self.inner)
+        }
     }
 }
